@@ -102,14 +102,81 @@ def build_pool(rng, s, n_docs):
               "query ($v: Int) { __typename }", b"{ __typename }", "{ __typename }", "\x00", ""]
     for q in broken:
         pool.append({"query": q, "variables": {}, "opname": None, "oracle_seed": 1, "root": None})
+    # documents refused by a validation rule next to VALID documents that reuse their names: a rule object, a
+    # suggestion list or any other state kept between requests shows as a history-dependent answer
+    for q in INVALID_VALID_FAMILY:
+        pool.append({"query": q, "variables": {}, "opname": None, "oracle_seed": 1, "root": None})
+    for c in execgen.error_path_cases():
+        pool.append({"query": c["query"], "variables": c["variables"], "opname": None, "oracle_seed": 1, "root": None})
     return pool
 
 
+INVALID_VALID_FAMILY = [
+    # fragment cycles, then valid nestings over the same fragment names
+    "query { ...FA } fragment FA on Query { __typename ...FB } fragment FB on Query { ...FA }",
+    "query { ...FA } fragment FA on Query { __typename ...FB } fragment FB on Query { __typename }",
+    "query { ...FB } fragment FB on Query { __typename ...FA } fragment FA on Query { __typename }",
+    "query { ...FA } fragment FA on Query { ...FB } fragment FB on Query { ...FC } fragment FC on Query { ...FA }",
+    "query { ...FC } fragment FC on Query { ...FB } fragment FB on Query { ...FA } fragment FA on Query { a: __typename }",
+    "query { ...FA } fragment FA on Query { ...FA }",
+    "query { ...FA ...FA } fragment FA on Query { __typename }",
+    # unused / unknown / duplicated names
+    "query { __typename } fragment FA on Query { __typename }",
+    "query { ...FZ }",
+    "query { ...FA } fragment FA on Query { __typename } fragment FA on Query { __typename }",
+    "query A { __typename } query A { __typename }",
+    "query A { __typename } query B { b: __typename }",
+    "query ($v: Boolean) { __typename }",
+    "query ($v: Boolean) { __typename @include(if: $v) }",
+    "query ($v: Boolean, $v: Boolean) { __typename @include(if: $v) }",
+    "query { __typename @include(if: $v) }",
+    "query ($v: Int) { __typename @include(if: $v) }",
+    "query { __typename @include(if: true) @include(if: true) }",
+    "query { __typename @nope }",
+    "query { __typename @include }",
+    "query { __typename { x } }",
+    "query { a: __typename a: __typename }",
+    "{ __typename } query B { __typename }",
+]
+
+
 def canon(resp):
-    return json.dumps(resp, sort_keys=True, default=repr)
+    import re
+    # engine-authored messages may quote the repr of a user object: addresses differ from run to run
+    return re.sub(r"0x[0-9a-fA-F]+", "0x", json.dumps(resp, sort_keys=True, default=repr))
 
 
-async def run_schema(s, history, rng):
+def isolated_references(cases):
+    """each distinct request answered by a fresh engine in a FRESH INTERPRETER (16 at a time)"""
+    import os
+    import subprocess
+    import sys
+    from concurrent.futures import ThreadPoolExecutor
+    worker = os.path.join(os.path.dirname(os.path.abspath(__file__)), "c16_worker.py")
+    env = dict(os.environ, PYTHONHASHSEED="0")
+
+    def one(c):
+        arg = json.dumps({"query": c["query"].decode("utf-8") if isinstance(c["query"], bytes) else c["query"],
+                          "query_is_bytes": isinstance(c["query"], bytes), "variables": c["variables"],
+                          "opname": c.get("opname"), "oracle_seed": c["oracle_seed"]})
+        r = subprocess.run([sys.executable, worker, arg], capture_output=True, text=True, env=env, timeout=300)
+        for line in r.stdout.splitlines():
+            if line.startswith("RESULT "):
+                return json.loads(line[7:])
+        return {"worker_failed": (r.stderr or r.stdout)[-400:]}
+
+    with ThreadPoolExecutor(max_workers=16) as ex:
+        return list(ex.map(one, cases))
+
+
+def isolated_family():
+    cases = [{"query": q, "variables": {}, "opname": None, "oracle_seed": 1, "root": None} for q in INVALID_VALID_FAMILY]
+    cases += [{"query": c["query"], "variables": c["variables"], "opname": None, "oracle_seed": 1, "root": None}
+              for c in execgen.error_path_cases()]
+    return cases
+
+
+async def run_schema(s, history, rng, isolated=None):
     configs = {
         "default-lru": {},
         "custom-decorator": {"query_cache_decorator": lambda fn: functools.lru_cache(maxsize=None)(fn)},
@@ -153,6 +220,11 @@ async def run_schema(s, history, rng):
         roref[0] = execgen.Oracle(s, c["oracle_seed"], 0.05, 0.08)
         expected = await ref.execute(c["query"], operation_name=c.get("opname"), variables=c["variables"], context=ctx_obj)
         row = {"expected": expected, "got": {}, "mutated": {}}
+        if isolated is not None:
+            # the reference is the answer of a fresh interpreter; the in-process fresh engine is one more subject
+            row["got"]["fresh-engine-in-this-process"] = expected
+            row["mutated"]["fresh-engine-in-this-process"] = False
+            row["expected"] = isolated[id(c)]
         for name, (eng, rec, oref) in engines.items():
             oref[0] = execgen.Oracle(s, c["oracle_seed"], 0.05, 0.08)
             try:
@@ -202,6 +274,26 @@ def main(tier_, replay=None):
                 if row["mutated"][name]:
                     mutated.append((s, c, name))
         samples.append({"history_prefix": [{"query": repr(c["query"])[:80], "opname": c.get("opname")} for c in history[:4]]})
+    # histories over the invalid/valid family and the error-path requests on a fixed schema; the reference of each
+    # request comes from a fresh INTERPRETER, so state kept anywhere in the process (rule objects, module-level
+    # caches) is seen as well
+    from . import c16_worker
+    fs = c16_worker.fixed_schema()
+    fam = isolated_family()
+    refs = isolated_references(fam)
+    isolated = {id(c): r for c, r in zip(fam, refs)}
+    for rnd in range(2 if tier_ == "quick" else 6):
+        history = list(fam)
+        rng.shuffle(history)
+        history = history + [rng.choice(fam) for _ in range(len(fam))]
+        rows = asyncio.run(run_schema(fs, history, rng, isolated=isolated))
+        for i, (c, row) in enumerate(zip(history, rows)):
+            total += 1
+            distinct.add(("fixed", repr(c["query"]), repr(c.get("opname")), canon(c["variables"])))
+            for name, resp in row["got"].items():
+                if canon(resp) != canon(row["expected"]):
+                    viol.append((fs, history[:i + 1], name, row["expected"], resp))
+                    break
     for s, hist, name, exp, got in viol[:5]:
         rep.violation({"property": "C16", "kind": "response differs from the fresh uncached engine's",
                        "cache_configuration": name, "sdl": gen.schema_sdl(s),
@@ -228,7 +320,10 @@ def main(tier_, replay=None):
         "evaluations": total * 5, "distinct_nontrivial": len(distinct),
         "rule": "request histories over a pool (valid, invalid, broken, same text with other variables/operation names, "
                 "multi-operation documents with different variable signatures, str and bytes) x 5 cache configurations, "
-                "each position compared with a fresh uncached engine; non-trivial = distinct (document, operation, variables)",
+                "each position compared with a fresh uncached engine; plus histories over refused documents (every "
+                "fragment-cycle shape, unknown / unused / duplicated names, ...) next to valid documents reusing their "
+                "names and over requests failing in the suggestion paths, each compared with the answer of a fresh "
+                "INTERPRETER; non-trivial = distinct (document, operation, variables)",
         "traces_validated_against_impl": total * 5, "documents_mutated": len(mutated),
         "property_violations": len(viol), "samples": samples[:2],
     }, rep.wall(), violations=len(rep.violations),
